@@ -715,7 +715,9 @@ func (sm *Subscriptions) WhenArgs(
 
 	// try to reuse an existing channel
 	for _, binding := range sm.whenArgs[handler] {
-		if compareArgs(binding.args, args) {
+		if binding.ctx == ctx && len(binding.args) == len(args) &&
+			compareArgs(binding.args, args) {
+
 			return binding.ch
 		}
 	}
